@@ -24,6 +24,7 @@ class MGen(object):
         self.ndec = 0
         self.nk = 0
         self.nstmt = 0
+        self.nstar = 0
         self.seen = [set()]       # per open scope: names bound so far in the text (reads are biased towards them)
 
     def site(self):
@@ -126,6 +127,13 @@ class MGen(object):
         if r < 0.46:
             return {'k': 'read', 'atoms': self.atoms(1, 2)}
         if r < 0.56:
+            if self.rng.random() < 0.3:
+                # import forms: each import statement names a module of its own, so the value read later identifies the statement
+                if kind == 'module' and self.rng.random() < 0.35:
+                    self.nstar += 1
+                    names = self.rng.sample(self.names, self.rng.randint(1, min(2, len(self.names))))
+                    return {'k': 'star', 'mod': 'vstar%d' % self.nstar, 'names': [[self.bound(n), self.site()] for n in names]}
+                return {'k': 'imp', 'form': self.rng.choice(['import', 'from']), 'name': self.bound(self.bvar()), 'site': self.site()}
             return {'k': 'call', 'name': self.callee(), 'rid': self.rid()}
         if r < 0.64 and self.ndec < 5:
             self.ndec += 1
@@ -310,8 +318,10 @@ def own_bound(body):
     out = set()
     for s in body:
         k = s['k']
-        if k in ('assign', 'def', 'lambda', 'class'):
+        if k in ('assign', 'def', 'lambda', 'class', 'imp'):
             out.add(s['name'])
+        elif k == 'star':
+            out |= {n for n, _ in s['names']}
         elif k == 'for':
             out.add(s['name'])
             out |= own_bound(s['body'])
@@ -359,6 +369,9 @@ class Rendered(object):
         self.def_line = {}        # first line of a def (its first decorator) / of a lambda -> site
         self.class_site = {}      # class name -> site
         self.params = {}          # def site -> [(form, name, site)]
+        self.star_files = {}      # module name -> text (project files supp analyses)
+        self.star_sites = {}      # module name -> {name: site}
+        self.imp_sites = []       # sites of `import vm<site> as name`
 
 
 def render(body):
@@ -415,6 +428,12 @@ def render(body):
         k = s['k']
         if k == 'assign':
             out.append(pad + '%s = _vo.b(%d)' % (s['name'], s['site']))
+        elif k == 'imp':
+            out.append(pad + ('import vm%d as %s' % (s['site'], s['name']) if s['form'] == 'import' else 'from vmods import t%d as %s' % (s['site'], s['name'])))
+        elif k == 'star':
+            R.star_files[s['mod']] = ''.join('%s = %d\n' % (n, st_) for n, st_ in s['names'])
+            R.star_sites[s['mod']] = {n: st_ for n, st_ in s['names']}
+            out.append(pad + 'from %s import *' % s['mod'])
         elif k == 'read':
             out.append(pad + reads(s['atoms'], line, len(pad)))
         elif k == 'call':
@@ -552,6 +571,10 @@ def reduce_program(body):
         k = s['k']
         if k == 'assign':
             return [new(k='bind', n=s['name'], s=s['site'], o=o)]
+        if k == 'imp':
+            return [new(k='bind', n=s['name'], s=s['site'], o=o)]
+        if k == 'star':
+            return [new(k='bind', n=n, s=st_, o=o) for n, st_ in s['names']]
         if k == 'read':
             return rd_nodes(s['atoms'], o)
         if k == 'call':
@@ -614,6 +637,8 @@ class MOracle(prog.Oracle):
             return s
         if isinstance(x, type) and x.__name__ in self.R.class_site:
             return self.R.class_site[x.__name__]
+        if isinstance(x, types.ModuleType) and hasattr(x, '_vsite'):
+            return x._vsite
         if isinstance(x, tuple) and len(x) == 1:
             return self.site_of(x[0])
         if isinstance(x, dict) and '_vkw' in x:
@@ -681,11 +706,41 @@ class MOracle(prog.Oracle):
         return None
 
 
+class _TokMods(types.ModuleType):
+    def __getattr__(self, name):
+        if name.startswith('t') and name[1:].isdigit():
+            return prog.Token(int(name[1:]))
+        raise AttributeError(name)
+
+
+def install_modules(R):
+    import sys
+    import re
+    added = []
+    for m in re.finditer(r'import vm(\d+) as', R.source):
+        mod = types.ModuleType('vm' + m.group(1))
+        mod._vsite = int(m.group(1))
+        sys.modules[mod.__name__] = mod
+        added.append(mod.__name__)
+    sys.modules['vmods'] = _TokMods('vmods')
+    added.append('vmods')
+    for name, sites in R.star_sites.items():
+        mod = types.ModuleType(name)
+        for n, st_ in sites.items():
+            setattr(mod, n, prog.Token(st_))
+        mod.__all__ = sorted(sites)
+        sys.modules[name] = mod
+        added.append(name)
+    return added
+
+
 def run_once(code, script, R):
     import builtins
+    import sys
     o = MOracle(script, R)
     builtins._vo = o
     ns = {'__name__': '_vmod'}
+    added = install_modules(R)
     try:
         exec(code, ns)
     except NameError:
@@ -696,6 +751,8 @@ def run_once(code, script, R):
         o.outcome = 'overrun'
     finally:
         del builtins._vo
+        for m in added:
+            sys.modules.pop(m, None)
     return o
 
 
@@ -726,6 +783,8 @@ def mentions(body):
                 out.add(a[0])
         if 'name' in s:
             out.add(s['name'])
+        if s['k'] == 'star':
+            out |= {n for n, _ in s['names']}
         for p in s.get('params') or []:
             out.add(p[1])
             for a in p[3] + p[4]:
@@ -787,6 +846,11 @@ def binding_positions(source):
             out.append((n.lineno, n.col_offset, n.id, 'name'))
         elif isinstance(n, ast.arg):
             out.append((n.lineno, n.col_offset, n.arg, 'param'))
+        elif isinstance(n, ast.alias):
+            if n.asname:
+                out.append((n.end_lineno, n.end_col_offset - len(n.asname), n.asname, 'alias'))
+            elif n.name == '*':
+                out.append((n.lineno, n.col_offset, '*', 'star'))
         elif isinstance(n, (ast.FunctionDef, ast.AsyncFunctionDef, ast.ClassDef)):
             m = re.search(r'\b(?:def|class)\s+(%s)\b' % re.escape(n.name), lines[n.lineno - 1])
             out.append((n.lineno, m.start(1), n.name, 'def'))
@@ -800,12 +864,14 @@ def site_positions(body, source):
     for ln, col, nm, kind in binding_positions(source):
         occ.setdefault((ln, nm, kind), []).append(col)
     pos = {}
+    names = {}
     line = [0]
 
-    def take(ln, nm, kind, site):
+    def take(ln, nm, kind, site, bound=None):
         c = occ.get((ln, nm, kind))
         assert c and len(c) == 1, (ln, nm, kind, c)
         pos[site] = (ln, c[0])
+        names[site] = bound or nm
 
     def blk(b):
         if not b:
@@ -819,6 +885,11 @@ def site_positions(body, source):
         ln = line[0]
         if k in ('assign',):
             take(ln, s['name'], 'name', s['site'])
+        elif k == 'imp':
+            take(ln, s['name'], 'alias', s['site'])
+        elif k == 'star':
+            for n, st_ in s['names']:
+                take(ln, '*', 'star', st_, bound=n)
         elif k in ('read', 'call', 'return'):
             pass
         elif k == 'if':
@@ -848,7 +919,7 @@ def site_positions(body, source):
         elif k == 'comp':
             take(ln, s['name'], 'name', s['site'])
     blk(body)
-    return pos
+    return pos, names
 
 
 def generate(rng, max_depth=3):
@@ -864,5 +935,5 @@ def generate(rng, max_depth=3):
     except SyntaxError:
         return None
     nodes, scopes = reduce_program(body)
-    R.site_pos = site_positions(body, R.source)
+    R.site_pos, R.site_name = site_positions(body, R.source)
     return body, R, nodes, scopes
